@@ -2,9 +2,9 @@ package main
 
 func init() {
 	register("C12", &propDef{
-		Level: "translation_validation",
+		Level:   "translation_validation",
 		Explain: "Translation validation of the three generated Go tables against cmd/licenses.json and cmd/exceptions.json under the generator's own template, which is extracted statically from the SSA of package cmd on every run (L1) and instantiated on the JSON data (L2, byte equality with the committed files). L3 compares the tables as compiled with the projection the SPDX schema fixes (licenseId / licenseExceptionId filtered by isDeprecatedLicenseId, missing keys are errors) independently of the generator, and L3g requires the generator's extracted projection to be that one. K1: the list lookup is an exhaustive EqualFold scan returning list spelling. Plus exhaustive lints over all ids: pairwise disjoint and fold-unique (L4), every id readable by the scanner in its role (L5), token roles consumed only where the grammar allows (L6). Nothing under /repo is executed.",
-		Run:   rulesC12,
+		Run:     rulesC12,
 		Trusted: []string{"go/ssa lowering", "encoding/json field matching (exact, then case-insensitive) as mirrored by the checker", "the generator writes files only through os.WriteFile (other writers are reported undecided)"},
 	})
 }
